@@ -1,11 +1,12 @@
 #!/bin/bash
-# runs every seeded change under /verif/seeded through the check of its property (quick tier)
+# runs every seeded change under /verif/seeded through the check of its property (quick tier);
+# seedtest.sh (with confirmation of the seed itself) was run once per seed when it was added
 out=/verif/seeded/RESULTS.txt
 tier=${1:-quick}
 : > $out.tmp
 for d in /verif/seeded/C*-*/; do
   n=$(basename $d); id=${n%-*}; k=${n#*-}
-  r=$(/verif/seedtest.sh $id $k $tier 2>&1 | grep "RESULT\|NOT CONFIRMED" | tail -1)
+  r=$(/verif/seedcheck.sh $id $k $tier 2>&1 | grep "RESULT" | tail -1)
   echo "$n $r" >> $out.tmp
 done
 mv $out.tmp $out
